@@ -155,7 +155,14 @@ def dispatch(pid, tier, replay):
         # own process group + overall time limit: a check that cannot finish (a broken tree can make
         # every case wait for its watchdog) is inconclusive, and no child process may be left behind
         limit = int(os.environ.get("VERIF_CHECK_TIMEOUT", "1800" if tier == "quick" else "21600"))
-        p = subprocess.Popen(cmd, env=env, start_new_session=True)
+        def _die_with_parent():
+            try:
+                import ctypes
+                ctypes.CDLL("libc.so.6").prctl(1, 9)  # PR_SET_PDEATHSIG, SIGKILL
+            except Exception:  # noqa
+                pass
+
+        p = subprocess.Popen(cmd, env=env, start_new_session=True, preexec_fn=_die_with_parent)
         try:
             rc = p.wait(timeout=limit)
         except subprocess.TimeoutExpired:
